@@ -184,45 +184,40 @@ theorem C09_nan_shape_steady_state (cfg : EulerCfg) (c c' : Content) (segs : Lis
   have := ssRun_shape cfg c c' segs h
   simpa [ssWorker] using this
 
-/-- time-course worker, `_partial`: when the requested grid starts at 0 (and has no negative
-    point) the placeholder's index is the index of every successful row. -/
-theorem C09_nan_shape_time_course_partial (cfg : EulerCfg) (tps : List Rat) (c c' : Content)
-    (segs : List Seg) (h0 : tps.head? = some 0) (hpos : ∀ t, t ∈ tps → 0 ≤ t)
+/-- time-course worker (full, after "fix: NaN placeholders of failed scan rows have the time points of a
+    successful run"): for EVERY requested grid the placeholder's time index is the time index of every
+    successful row: the start 0, then the requested non-negative points. -/
+theorem C09_nan_shape_time_course (cfg : EulerCfg) (tps : List Rat) (c c' : Content) (segs : List Seg)
     (h : (tcWorker cfg tps).run c = .ok (c', some segs)) :
-    (segs.flatMap (·.rows)).map (·.1) = (tcWorker cfg tps).dfltIndex := by
-  have := (tcRun_index cfg tps c c' segs h).1
-  rw [this]
-  have hf : tps.filter (fun t => decide (0 ≤ t)) = tps := by
-    apply List.filter_eq_self.mpr
-    intro t ht; simpa using hpos t ht
-  simp [tcWorker, tcIndex, hf, tcGrid, h0]
+    (segs.flatMap (·.rows)).map (·.1) = (tcWorker cfg tps).dfltIndex :=
+  (tcRun_index cfg tps c c' segs h).1
 
-/-- … and the full statement fails (known finding F-C09-2): a grid that does not start at 0 -/
-theorem C09_nan_shape_time_course_fails (cfg : EulerCfg) :
-    tcIndex [1/2, 1] = [0, 1/2, 1] ∧ (tcWorker cfg [1/2, 1]).dfltIndex = [1/2, 1] := by
-  constructor
-  · decide +kernel
-  · rfl
+/-- protocol worker (full): for every protocol and every `time_points_per_step > 0` a successful row has the
+    placeholder's time index — `steps + 1` points for the first step, `steps` for every later one. -/
+theorem C09_nan_shape_protocol (cfg : EulerCfg) (proto : Protocol) (steps : Nat) (hs : 0 < steps)
+    (c c' : Content) (segs : List Seg) (h : (protoWorker cfg proto steps).run c = .ok (c', some segs)) :
+    (segs.flatMap (·.rows)).map (·.1) = (protoWorker cfg proto steps).dfltIndex :=
+  protoRun_index cfg proto steps hs c c' segs h
 
-example : ([0, 1/2, 1] : List Rat).head? = some 0 ∧ ∀ t, t ∈ ([0, 1/2, 1] : List Rat) → 0 ≤ t := by
-  constructor
-  · rfl
-  · intro t ht; simp at ht; rcases ht with rfl | rfl | rfl <;> decide +kernel
-
-/-- protocol worker (known finding F-C09-2, for EVERY non-empty protocol and step count): the
-    placeholder has one row fewer than a successful result. -/
-theorem C09_nan_shape_protocol_never (cfg : EulerCfg) (proto : Protocol) (steps : Nat) (hp : proto ≠ []) :
-    (protoIndex steps 0 true proto).length = (protoWorker cfg proto steps).dfltIndex.length + 1 := by
+/-- the row count the placeholder had before the fix (`len(protocol) * time_points_per_step`) was one short -/
+theorem C09_protocol_row_count (cfg : EulerCfg) (proto : Protocol) (steps : Nat) (hp : proto ≠ []) :
+    (protoWorker cfg proto steps).dfltIndex.length = proto.length * steps + 1 := by
   have he : proto.isEmpty = false := by cases proto with | nil => exact absurd rfl hp | cons _ _ => rfl
-  simp [protoWorker, protoDflt, linspace_length, protoIndex_length, he]
+  simp [protoWorker, protoIndex_length, he]
 
-/-- protocol + time points worker (known finding F-C09-2): witness of a wrong placeholder index and
-    an input on which it is right (0, the protocol end and nothing outside are requested) -/
-theorem C09_nan_shape_protocol_time_course_witness (cfg : EulerCfg) :
-    ptcIndex [(1, [])] [1/2, 1] = [0, 1/2, 1] ∧ (ptcWorker cfg [(1, [])] [1/2, 1]).dfltIndex = [1/2, 1] ∧
-    ptcIndex [(1, [])] [0, 1/2, 1] = (ptcWorker cfg [(1, [])] [0, 1/2, 1]).dfltIndex := by
-  refine ⟨by decide +kernel, rfl, ?_⟩
-  show ptcIndex [(1, [])] [0, 1/2, 1] = [0, 1/2, 1]
-  decide +kernel
+/-- protocol + time points worker: the placeholder's index is, by construction, `ptcIndex` — the start, every
+    protocol end and every requested point inside the protocol.  That a successful `ptcRun` produces this
+    index is checked by the driver on every tied input (`grid_ok`) and here on a closed instance in which
+    the request neither contains the start nor the protocol end and reaches beyond the protocol. -/
+theorem C09_nan_shape_protocol_time_course (cfg : EulerCfg) (proto : Protocol) (tps : List Rat) :
+    (ptcWorker cfg proto tps).dfltIndex = ptcIndex proto tps := rfl
+
+theorem C09_nan_shape_protocol_time_course_instance :
+    (match (ptcWorker { nss := 0, h := 0, failKeys := [] } [(1, []), (2, [])] [1/2, 3/2, 5/2]).run wContent with
+     | .ok (_, some segs) => some ((segs.flatMap (·.rows)).map (·.1))
+     | _ => none)
+      = some (ptcWorker { nss := 0, h := 0, failKeys := [] } [(1, []), (2, [])] [1/2, 3/2, 5/2]).dfltIndex
+    ∧ ptcIndex [(1, []), (2, [])] [1/2, 3/2, 5/2] = [0, 1/2, 1, 3/2, 2] := by
+  constructor <;> decide +kernel
 
 end Mxl.C09
